@@ -146,6 +146,7 @@ def solve (uf : Nat) (prog : Program) : Nat → Term → St → Res SOut
       | .app "phrase" (.cons b (.cons s0 (.cons s .nil))) =>
         match resolve uf st.σ b with
         | none => .error .fuel
+        | some (.var _) => .error (.unsupported "instantiation_error: phrase/3 with an unbound body")
         | some b' =>
           match Body.ofTerm b' with
           | .error _ => .error (.unsupported "phrase/3: not a grammar body")
